@@ -628,7 +628,21 @@ func (c *genCtx) trap(depth int, nn bool) *Expr {
 	if c.draw(0, 13, "nonemptyfail") == 0 {
 		kind = 16
 	}
+	if c.o.Parseables && c.draw(0, 13, "rewindcommit") == 0 {
+		kind = 17
+	}
 	switch kind {
+	case 17:
+		// not at the start of the input: an alternative that begins with a user production which looks at a token and
+		// rewinds (MakeCheckpoint / LoadCheckpoint), then commits inside an optional group that fails three tokens in,
+		// next to an alternative that takes the same tokens:  @x ( R? @"ab" ( ";" ";" "+" )? | @Ident ) ";"*
+		x := c.leaf()
+		word := Lit(rapid.SampledFrom([]string{"ab", "b", "ab"}).Draw(c.t, "refusedword"))
+		deep := Group("?", Seq(Lit(";"), Lit(";"), Lit("+")))
+		deep.Style = c.draw(0, 5, "gstyle")
+		first := Seq(Group("?", &Expr{Kind: KPars, S: "R", Prod: -1, Uni: -1}), Cap(word), deep)
+		second := Cap(Ref("Ident"))
+		return Seq(Cap(x), Alt(first, second), Group("*", Lit(";")))
 	case 16:
 		// a ( ... )! group whose body fails after an optional part of it has matched and captured, inside an optional,
 		// followed by a tail that takes the same tokens: ( ( @a? b )! )? @a*   /   ( ( @a? ( b @a b )? )! c )? @a*
